@@ -16,6 +16,7 @@ package main
 //   e  the goroutine has the deferred recover→Close; the loop is unconditional, leaves only on EOF or
 //      the kill signal, and hands every other sequence to handleSequence
 //   f  SGR-1006 constants and field arithmetic of parseMouseEvent; MouseButton constants
+//   i  request flag / reply channel pairing (c03_req.go)
 //   g  user-input events are produced under exactly their dispatch keys (focus I/O, paste 200/201,
 //      mouse M/m) and depend on nothing but the report; a key-carrying final (u ~ R S) is consumed
 //      without an event only behind a discriminator no key report satisfies
@@ -62,6 +63,7 @@ func runC03(c *Ctx) {
 		"C03.e deferred recover→Close in the input goroutine; unconditional loop whose only exits are EOF and the kill signal; every non-EOF sequence goes to handleSequence",
 		"C03.f SGR-1006 encoding: motion bit 32, button mask 0xC3, Shift/Alt/Ctrl bits 4/8/16, column = P2-1, row = P3-1, M press / m release, motion overrides; MouseButton constants equal the xterm button numbers",
 		"C03.g focus, paste-bracket and mouse events are posted under exactly their dispatch keys and under no condition outside the report; key-carrying finals are consumed silently only behind a reply discriminator",
+		"C03.i request flag / reply channel pairing (reqCursorPos / chCursorPos): a requester that sets the flag reaches every return through the reply arm or a store of false; handleSequence hands a report over only while the flag is set, clears it before the hand-over and on every path that consumed the report",
 	}
 	c.NotDec = []string{
 		"exactness of each key decode (C09 decides the key tables), DECRPM numbers and capability effects (C07.c)",
@@ -80,6 +82,7 @@ func runC03(c *Ctx) {
 	c.expect("C03.e", 7)
 	c.expect("C03.f", 21)
 	c.expect("C03.g", 18)
+	c.expect("C03.i", 4)
 
 	x := &c03Env{c: c}
 	x.pk = c.P.Pkg("vaxis")
@@ -128,6 +131,7 @@ func runC03(c *Ctx) {
 		x.ruleB()
 		x.ruleC()
 		x.ruleE()
+		x.ruleI()
 	}
 	x.ruleD()
 	x.ruleG()
